@@ -142,24 +142,38 @@ def cases(tier, seed=0):
 
 
 def fast_cases(tier, seed=0):
+    """(form, geometry, space, tol): smooth geometries (B-spline / NURBS quarter annulus, bilinear quadrilateral, twisted box,
+    trilinear hexahedron); spaces: uniform open knot vectors with every degree pair / span-count pair from small sets
+    plus spaces with repeated and graded knots from the shared alphabet"""
     quick = tier == "quick"
     cs = []
-    sp2 = [[[2, "uniform", 4], [2, "uniform", 5]], [[3, "uniform", 6], [2, "uniform", 4]], [[3, "U4", [1, 2, 1]], [2, "G3", [1, 1]]]]
-    sp3 = [[[2, "uniform", 3], [2, "uniform", 4], [1, "uniform", 3]]]
-    if not quick:
-        sp2 += [[[1, "uniform", 3], [1, "uniform", 3]], [[3, "uniform", 8], [3, "uniform", 8]], [[1, "U3", [1, 1]], [4, "U2", [2]]],
-                [[4, "uniform", 5], [1, "uniform", 7]]]
-        sp3 += [[[1, "uniform", 3], [1, "uniform", 3], [1, "uniform", 3]], [[3, "uniform", 4], [2, "U2", [1]], [1, "U3", [1, 1]]]]
+    if quick:
+        sp2 = [[[1, "uniform", 3], [1, "uniform", 3]], [[2, "uniform", 4], [2, "uniform", 5]], [[3, "uniform", 6], [2, "uniform", 4]],
+               [[3, "U4", [1, 2, 1]], [2, "G3", [1, 1]]]]
+        sp3 = [[[2, "uniform", 3], [2, "uniform", 4], [1, "uniform", 3]]]
+    else:
+        sp2 = [[[p1, "uniform", n1], [p2, "uniform", n2]] for p1 in (1, 2, 3) for p2 in (1, 2, 3) for n1 in (2, 3, 5) for n2 in (2, 3, 5)]
+        sp2 += [[[3, "uniform", 8], [3, "uniform", 8]], [[4, "uniform", 5], [1, "uniform", 7]], [[3, "U4", [1, 2, 1]], [2, "G3", [1, 1]]],
+                [[1, "U3", [1, 1]], [4, "U2", [2]]], [[2, "G4", [2, 1]], [2, "U4", [1, 1, 1]]]]
+        sp3 = [[[p, "uniform", n]] * 3 for p in (1, 2) for n in (2, 3)]
+        sp3 += [[[2, "uniform", 3], [2, "uniform", 4], [1, "uniform", 3]], [[3, "uniform", 4], [2, "U2", [1]], [1, "U3", [1, 1]]]]
     g2 = ["bspline_quarter_annulus", "quarter_annulus", geos2(seed)[2]]
     g3 = ["twisted_box", geos3(seed)[3]]
     for which in ("mass", "stiffness"):
-        for tol in TOLS:
-            for g in g2:
-                for ax in sp2:
-                    cs.append({"kind": "fast", "which": which, "geo": g, "axes": ax, "tol": tol})
-            for g in g3:
-                for ax in sp3:
-                    cs.append({"kind": "fast", "which": which, "geo": g, "axes": ax, "tol": tol})
+        for g in g2:
+            for k, ax in enumerate(sp2):
+                for tol in TOLS:
+                    c = {"kind": "fast", "which": which, "geo": g, "axes": ax, "tol": tol}
+                    if tol == 1e-8 and k % (2 if quick else 12) == 1:
+                        c["exec"] = True       # second run in a newly exec'ed interpreter instead of a forked child
+                    cs.append(c)
+        for g in g3:
+            for k, ax in enumerate(sp3):
+                for tol in TOLS:
+                    c = {"kind": "fast", "which": which, "geo": g, "axes": ax, "tol": tol}
+                    if tol == 1e-6 and k == 0:
+                        c["exec"] = True
+                    cs.append(c)
     return cs
 
 
@@ -199,8 +213,9 @@ def _check(case, stats=None):
 
 
 def check_case(case):
+    from props.c09_util import roomy
     with _quiet_compiler():
-        return _check(case)[0]
+        return roomy(_check, case)[0]
 
 
 class _quiet_compiler:
@@ -228,9 +243,14 @@ class _quiet_compiler:
 
 
 def _w(case):
+    import time
+    from props.c09_util import roomy
     stats = {}
-    probs, calls = _check(case, stats)
-    return case, probs, calls, stats
+    t0 = time.process_time()
+    c0 = sum(_children_cpu())
+    probs, calls = roomy(_check, case, stats)
+    cpu = time.process_time() - t0 + sum(_children_cpu()) - c0
+    return case, probs, calls, stats, cpu
 
 
 def _warm(k):
@@ -278,45 +298,62 @@ def _children_cpu():
 def run(ctx):
     out = Outcome()
     cs = cases(ctx.tier, ctx.seed)
+    # import the library once in the parent (after the build step) so that forked workers and the pristine-rand()
+    # grandchildren of the fast-assembler cases inherit it; nothing is assembled in the parent (no thread pool)
+    import pyiga
+    from pyiga import assemble, bspline, geometry, vform, assemble_tools  # noqa: F401
+    import scipy.sparse.linalg  # noqa: F401
+    import ctypes  # noqa: F401
+    from props import c09_util, c09_oned, c09_tp, c09_fast  # noqa: F401
     order = {"det": 0, "1d": 1, "asym": 2, "tpid": 3, "tpgeo": 4, "rhs": 5, "fast": 6}
     # run-time compiled forms (mass 1D; stiffness 1D, 2D, 3D): compile once, in parallel, before the workers fork
     warm = par.pmap(_warm, [(1, "mass"), (1, "stiffness"), (2, "stiffness"), (3, "stiffness")], workers=4, chunk=1, min_parallel=1)
     ctx.log("compiled string forms ready%s" % ("" if not any(warm) else " (errors: %s)" % [w for w in warm if w]))
-    # heavy cases first for load balance inside each kind; results are reported in enumeration order
+    # two fork generations only (every forked worker pays copy-on-write for the parent's heap once): all cases
+    # except the fast-assembler ones in one parallel map, dealt in small chunks; the fast-assembler cases in a
+    # second map whose workers never assemble anything themselves (they fork the pristine-rand() children)
     allstats = {}
     cpu_total = [0.0, 0.0]
-    for kind in sorted(order, key=order.get):
-        sub = [c for c in cs if c["kind"] == kind]
-        if not sub:
+    main_cases = sorted((c for c in cs if c["kind"] != "fast"), key=lambda c: order[c["kind"]])
+    fast = [c for c in cs if c["kind"] == "fast"]
+    results = []
+    for group, kw in ((main_cases, dict(min_parallel=4, chunk=4)), (fast, dict(min_parallel=4, chunk=1))):
+        if not group:
             continue
-        kw = dict(min_parallel=4, chunk=1 if kind in ("fast", "1d", "tpgeo") else None)
         u0, s0 = _children_cpu()
         with _quiet_compiler():
-            res = par.pmap(_w, sub, **kw)
+            results += par.pmap(_w, group, **kw)
         u1, s1 = _children_cpu()
         cpu_total[0] += u1 - u0
         cpu_total[1] += s1 - s0
-        ncalls = 0
-        nviol = 0
-        for case, probs, calls, stats in res:
-            out.states += 1
-            out.transitions += calls
-            ncalls += calls
-            if _nontrivial(case):
-                out.nontrivial.add(repr(sorted(case.items())))
-            for k, v in stats.items():
-                if k.startswith("eig:"):
-                    allstats[k] = min(allstats.get(k, 1.0), v)
-                else:
-                    allstats[k] = max(allstats.get(k, 0.0), v)
-            out.outcomes.add((kind, calls, tuple(sorted(k for k, _ in probs))))
-            for key, msg in probs:
-                nviol += 1
-                out.add_violation(key, msg, case)
-        out.part(kind, cases=len(sub), library_calls=ncalls, problems=nviol)
-        out.sample(sub[len(sub) // 2], limit=12)
-        ctx.log("%-6s cases=%d library calls compared=%d problems=%d  cpu user=%.0fs sys=%.0fs"
-                % (kind, len(sub), ncalls, nviol, u1 - u0, s1 - s0))
+        ctx.log("%d cases (%s) done, worker cpu user=%.0fs sys=%.0fs" % (len(group), "fast assembler" if group is fast else "all other kinds",
+                                                                        u1 - u0, s1 - s0))
+    per = {}
+    for case, probs, calls, stats, cpu in results:
+        kind = case["kind"]
+        d = per.setdefault(kind, {"cases": 0, "calls": 0, "problems": 0, "cpu": 0.0, "list": []})
+        d["cases"] += 1
+        d["calls"] += calls
+        d["problems"] += len(probs)
+        d["cpu"] += cpu
+        d["list"].append(case)
+        out.states += 1
+        out.transitions += calls
+        if _nontrivial(case):
+            out.nontrivial.add(repr(sorted(case.items())))
+        for k, v in stats.items():
+            if k.startswith("eig:"):
+                allstats[k] = min(allstats.get(k, 1.0), v)
+            else:
+                allstats[k] = max(allstats.get(k, 0.0), v)
+        out.outcomes.add((kind, calls, tuple(sorted(k for k, _ in probs))))
+        for key, msg in probs:
+            out.add_violation(key, msg, case)
+    for kind in sorted(per, key=order.get):
+        d = per[kind]
+        out.part(kind, cases=d["cases"], library_calls=d["calls"], problems=d["problems"], cpu_seconds=round(d["cpu"], 1))
+        out.sample(d["list"][len(d["list"]) // 2], limit=12)
+        ctx.log("%-6s cases=%d library calls compared=%d problems=%d cpu=%.0fs" % (kind, d["cases"], d["calls"], d["problems"], d["cpu"]))
     out.evaluations = out.transitions
     out.traces = out.states
     out.extra["cpu_seconds_workers"] = {"user": round(cpu_total[0], 1), "sys": round(cpu_total[1], 1)}
